@@ -296,7 +296,8 @@ def run(p, report, tier):
                     kind = "no append" if "a1" not in bad[0].tokens else "two appends"
                     why = (f"{kind} on the path where: {describe(bad[0].facts)} - the list is shorter/longer than the "
                            "candidates while queried_indices still index the unfiltered candidates")
-                report.add("R10.1", ent, site + f" list `{cand.id}`", f"{f.file}:{L.lineno}", ok, detail=why)
+                report.add("R10.1", ent, site + " list built in `" + norm_stmt(L, 50) + "`", f"{f.file}:{L.lineno}", ok,
+                           detail=f"`{cand.id}`: " + why)
     # ---------------- R10.2
     for ci in bms:
         if ci.name not in CHUNK_INVARIANT:
